@@ -9,6 +9,10 @@ theorem op_cases (op : Nat) (hop : op ≤ 8) (h3 : op ≠ 3) (h4 : op ≠ 4) (h5
   have : op = 0 ∨ op = 1 ∨ op = 2 ∨ op = 7 ∨ op = 8 := by omega
   rcases this with rfl | rfl | rfl | rfl | rfl <;> simp [isMatch]
 
+theorem isMatch_le8 (op : Nat) (h : isMatch op = true) : op ≤ 8 := by
+  simp only [isMatch, Bool.or_eq_true, beq_iff_eq] at h
+  omega
+
 /-- nothing left to visit, nothing queued: no call, no error -/
 theorem noRefGo_empty (fx : Fixes) (query : Seq) (quals : Option (List Nat)) (C : Cigar) (hC : ∀ p ∈ C, p.1 ≤ 8)
     (anch : Bool) (rp qp : Nat) : noRefGo fx query quals anch rp qp [] [] C = ([], none) := by
@@ -457,5 +461,52 @@ theorem noRefGo_ins_ref (fx : Fixes) (query : Seq) (quals : Option (List Nat)) (
   have hpop := popResolved_ins_ref id ⟨pos, [], [ins]⟩ qs ins.length 0 ins.length 0
   simp only [noRefGo, hdw, hend, hql, List.nil_append, mapM', hh, h3, h4, h56]
   simp [bind, Except.bind, pure, Except.pure, hpop, noRefGo_empty fx query quals C hC, hm]
+
+/-! ### one isolated variant through `detectNoRef`; normalisation of an unshiftable indel -/
+
+theorem detectNoRef_single (fx : Fixes) (v nv : Variant) (hnorm : normalize v = nv) (start : Nat) (hstart : start ≤ nv.pos)
+    (cigar : Cigar) (query : Seq) (quals : Option (List Nat)) :
+    detectNoRef fx [v] 0 start cigar query quals = noRefGo fx query quals false start 0 [(0, nv)] [] cigar := by
+  have hno : nonOverlapping [nv] = [0] := by
+    unfold nonOverlapping
+    rw [nonOverlapGo]
+    simp [nonOverlapGo]
+  unfold detectNoRef
+  simp only [List.map_cons, List.map_nil, hnorm, hno, List.filterMap_cons, List.filterMap_nil, List.getElem?_cons_zero,
+    Option.map_some, List.drop_zero, dropWhile_single 0 nv start hstart]
+
+/-- a VCF deletion `a·del > a` whose last deleted base differs from the anchor `a` (it cannot be shifted to the left)
+is normalised to the position right after the anchor -/
+theorem normalize_vcf_deletion (p : Nat) (a : Char) (del : Seq) (hne : del ≠ []) (hun : del.getLast? ≠ some a) :
+    normalize ⟨p, a :: del, [[a]]⟩ = ⟨p + 1, del, [[]]⟩ := by
+  obtain ⟨b, del', rfl⟩ : ∃ b del', del = b :: del' := by
+    cases del with
+    | nil => exact absurd rfl hne
+    | cons b t => exact ⟨b, t, rfl⟩
+  cases hl : (b :: del').getLast? with
+  | none => simp at hl
+  | some c =>
+    have hca : (a == c) = false := by
+      cases h' : (a == c) with
+      | false => rfl
+      | true => have := eq_of_beq h'; subst this; exact absurd hl hun
+    simp [normalize, stripSuffix, stripPrefix, List.getLast?_cons_cons, hl, hca]
+
+/-- a VCF insertion `a > a·ins` whose last inserted base differs from the anchor is normalised to the position right
+after the anchor, REF empty -/
+theorem normalize_vcf_insertion (p : Nat) (a : Char) (ins : Seq) (hne : ins ≠ []) (hun : ins.getLast? ≠ some a) :
+    normalize ⟨p, [a], [a :: ins]⟩ = ⟨p + 1, [], [ins]⟩ := by
+  obtain ⟨b, ins', rfl⟩ : ∃ b ins', ins = b :: ins' := by
+    cases ins with
+    | nil => exact absurd rfl hne
+    | cons b t => exact ⟨b, t, rfl⟩
+  cases hl : (b :: ins').getLast? with
+  | none => simp at hl
+  | some c =>
+    have hca : (c == a) = false := by
+      cases h' : (c == a) with
+      | false => rfl
+      | true => have := eq_of_beq h'; subst this; exact absurd hl hun
+    simp [normalize, stripSuffix, stripPrefix, List.getLast?_cons_cons, hl, hca]
 
 end WhVerif.C06
